@@ -140,13 +140,44 @@ def projRow (s : Bool) (r : List P) (ψ : Vec) : Vec := Vec.add ψ ((rowStr s r)
 def projAll (t : Tab) (ψ : Vec) : Vec :=
   (List.zip t.signs t.rows).foldl (fun v sr => projRow sr.1 sr.2 v) ψ
 
-/-- The state stabilized by `t`, if `t` describes one: the images `Π(1+g_i)|k⟩` of all basis vectors
-span the range of the (unnormalised) projector on the stabilized subspace.  `some w` iff that range
-is one ray (all non-zero images have the same canonical representative `w`) and `w` is fixed by every
-signed row.  `none` if every basis vector is annihilated (−1 is in the group), if the images span
-more than one ray (dependent rows, e.g. an identity row: the stabilized subspace has dimension > 1),
-or if the result is not actually stabilized (rows do not commute). -/
+/-- a row as a vector over GF(2): bit `2j` = Z-part, bit `2j+1` = X-part of cell `j` -/
+def rowBits (r : List P) : Nat :=
+  (r.zipIdx.map fun (p, j) => (if p.hasZ then 2 ^ (2 * j) else 0) + (if p.hasX then 2 ^ (2 * j + 1) else 0)).sum
+
+/-- Gaussian elimination over GF(2) on rows given as bit masks; returns the rank -/
+def gf2Rank : Nat → List Nat → Nat
+  | 0, _ => 0
+  | _, [] => 0
+  | fuel + 1, r :: rs =>
+    if r = 0 then gf2Rank fuel rs
+    else
+      let low := r ^^^ (r &&& (r - 1))          -- lowest set bit of `r`
+      1 + gf2Rank fuel (rs.map fun x => if x &&& low != 0 then x ^^^ r else x)
+
+/-- the `n` rows are linearly independent as elements of the Pauli group modulo phases -/
+def independentB (t : Tab) : Bool :=
+  let bits := t.rows.map rowBits
+  gf2Rank (bits.length + 1) bits == t.n
+
+/-- The state stabilized by `t`, if `t` describes one.  `Π(1+g_i)` is (a multiple of) the projector on
+the stabilized subspace; the first non-zero image `Π(1+g_i)|k⟩` of a basis vector, canonicalised, is
+a candidate `w`.  `some w` iff `w` is fixed by every signed row *and* the rows are independent modulo
+phases (then the subspace fixed by the `n` commuting rows has dimension `2^(n-n) = 1`, so `w` is *the*
+state).  `none` if every basis vector is annihilated (−1 is in the group), if rows are dependent (e.g.
+an identity row), or if `w` is not actually stabilized (rows do not commute). -/
 def stateOf (t : Tab) : Option Vec :=
+  if !independentB t then none else
+  match (List.range (2 ^ t.n)).findSome? (fun k =>
+      let v := projAll t (Vec.basis t.n k)
+      if Vec.isZero v then none else some v) with
+  | none => none
+  | some v =>
+    let w := Z8.canonRay v
+    if stabilizesB t w then some w else none
+
+/-- the slow but definition-level version of `stateOf`: all non-zero images `Π(1+g_i)|k⟩` span one ray
+(used to cross-check `stateOf` on small `n` in the driver) -/
+def stateOfSlow (t : Tab) : Option Vec :=
   let cands := (List.range (2 ^ t.n)).map fun k => projAll t (Vec.basis t.n k)
   match (cands.filter (fun v => !Vec.isZero v)).map Z8.canonRay with
   | [] => none
